@@ -21,7 +21,7 @@ use anda_cognitive_nexus::{
     CognitiveNexus,
     governance::{
         AuthContext, SYSTEM_PRINCIPAL,
-        rows::{AuthorityScope, principal_class},
+        rows::{AuthorityConstraints, AuthorityScope, principal_class},
         store::{GrantDraft, PrincipalDraft},
     },
     nexus::DEFAULT_SPACE,
@@ -48,6 +48,22 @@ enum Narrow {
     Class,
     /// no narrowing at all (positive control)
     None,
+    /// classifications=[internal] in a Space whose default classification is
+    /// `secret`: R is labelled internal, X was never labelled, so it
+    /// effectively carries `secret` and is NOT reached
+    ClassUnderSecretDefault,
+    /// max_classification=internal in the same Space: the unlabelled X is above the ceiling
+    CeilingUnderSecretDefault,
+}
+
+impl Narrow {
+    /// The Space's `default_classification` the unit runs under ("" = bootstrap, internal).
+    fn space_default(self) -> &'static str {
+        match self {
+            Narrow::ClassUnderSecretDefault | Narrow::CeilingUnderSecretDefault => "secret",
+            _ => "",
+        }
+    }
 }
 
 struct Target {
@@ -92,6 +108,9 @@ fn holds(perm: &str, t: &Target, n: Narrow, reachable: &str) -> bool {
         Narrow::Kind => t.kind == "evidence",
         Narrow::Element => t.id == reachable,
         Narrow::Class => t.class == "public",
+        // the label an element effectively carries: its own, else the Space default
+        Narrow::ClassUnderSecretDefault => (if t.class.is_empty() { n.space_default() } else { t.class }) == "internal",
+        Narrow::CeilingUnderSecretDefault => ["public", "internal"].contains(&(if t.class.is_empty() { n.space_default() } else { t.class })),
     }
 }
 
@@ -187,10 +206,20 @@ async fn run_narrow(n: Narrow, only: Option<usize>) -> Out {
         let scope = match n {
             Narrow::Kind => AuthorityScope { kinds: strs(&["evidence"]), ..Default::default() },
             Narrow::Class => AuthorityScope { classifications: strs(&["public"]), ..Default::default() },
+            Narrow::ClassUnderSecretDefault => AuthorityScope { classifications: strs(&["internal"]), ..Default::default() },
             _ => AuthorityScope::default(),
         };
-        gov.create_grant(GrantDraft { space_id: DEFAULT_SPACE.into(), grantee_principal: principal.clone(), actions: strs(P2_BUNDLE), scope, ..Default::default() }, SYSTEM_PRINCIPAL)
+        let constraints = match n {
+            Narrow::CeilingUnderSecretDefault => AuthorityConstraints { max_classification: "internal".into(), ..Default::default() },
+            _ => AuthorityConstraints::default(),
+        };
+        gov.create_grant(GrantDraft { space_id: DEFAULT_SPACE.into(), grantee_principal: principal.clone(), actions: strs(P2_BUNDLE), scope, constraints, ..Default::default() }, SYSTEM_PRINCIPAL)
             .await.expect("machinery: grant");
+    }
+    if !n.space_default().is_empty() {
+        let mut space = nexus.store.get_space(DEFAULT_SPACE).await.expect("machinery: get_space");
+        space.default_classification = n.space_default().to_string();
+        nexus.store.put_space(&space).await.expect("machinery: put_space");
     }
     let mut out = Out::default();
     for (index, case) in cases().into_iter().enumerate() {
@@ -209,12 +238,17 @@ async fn run_narrow(n: Narrow, only: Option<usize>) -> Out {
             _ => {
                 let r = owner_create(&nexus, r#"CREATE CONCEPT ?x { TYPE "Person" NAME "R" SET ATTRIBUTES {note: "original"} }"#).await;
                 let ry = owner_create(&nexus, r#"CREATE CONCEPT ?x { TYPE "Person" NAME "RY" }"#).await;
-                if n == Narrow::Class {
+                let rlabel = match n {
+                    Narrow::Class => "public",
+                    Narrow::ClassUnderSecretDefault | Narrow::CeilingUnderSecretDefault => "internal",
+                    _ => "",
+                };
+                if !rlabel.is_empty() {
                     for id in [&r, &ry] {
-                        owner.classify(DEFAULT_SPACE, id.parse().unwrap(), "public").await.expect("machinery: classify");
+                        owner.classify(DEFAULT_SPACE, id.parse().unwrap(), rlabel).await.expect("machinery: classify");
                     }
                 }
-                (r, ry, "concept", if n == Narrow::Class { "public" } else { "" })
+                (r, ry, "concept", rlabel)
             }
         };
         let mut grant_row = None;
@@ -282,18 +316,23 @@ async fn run_narrow(n: Narrow, only: Option<usize>) -> Out {
 
 fn main() {
     let mut run = Run::from_args("C19", "writes", "model_checking");
-    let mut units = vec![(Narrow::Kind, None), (Narrow::Element, None), (Narrow::Class, None), (Narrow::None, None)];
+    let mut units = vec![
+        (Narrow::Kind, None), (Narrow::Element, None), (Narrow::Class, None), (Narrow::None, None),
+        (Narrow::ClassUnderSecretDefault, None), (Narrow::CeilingUnderSecretDefault, None),
+    ];
     if let Some(file) = run.replay_file.clone() {
         let doc: Json = serde_json::from_slice(&std::fs::read(&file).expect("replay file")).expect("replay json");
         let n = match doc["replay"]["narrow"].as_str().unwrap_or("") {
             "Kind" => Narrow::Kind,
             "Element" => Narrow::Element,
             "Class" => Narrow::Class,
+            "ClassUnderSecretDefault" => Narrow::ClassUnderSecretDefault,
+            "CeilingUnderSecretDefault" => Narrow::CeilingUnderSecretDefault,
             _ => Narrow::None,
         };
         units = vec![(n, doc["replay"]["index"].as_u64().map(|i| i as usize))];
     }
-    let results = util::par_map(units, 4, |(n, only)| util::block_on(run_narrow(n, only)));
+    let results = util::par_map(units, 6, |(n, only)| util::block_on(run_narrow(n, only)));
     let mut controls = 0;
     for o in results {
         run.add("evaluations", o.executed);
@@ -317,7 +356,7 @@ fn main() {
         vcore::report::machinery("no statement of the write battery was accepted: the positive controls do not go through");
     }
     run.add("states", run.distinct_count() as u64);
-    run.rule("4 narrowings of the P2 bundle (kind / element / classification / none) x 5 P2 clause families x {alone, after UPDATE, before UPDATE, after UPSERT, before UPSERT} + three-clause and two-target blocks, each on a target the narrowing does not reach and on one it does, fresh targets per statement; distinct = (narrowing, P2 family, form, reference verdict)");
+    run.rule("6 narrowings of the P2 bundle (kind / element / classification / none; classification internal and ceiling internal in a Space whose default classification is secret, where the never-labelled target effectively carries secret) x 5 P2 clause families x {alone, after UPDATE, before UPDATE, after UPSERT, before UPSERT} + three-clause and two-target blocks, each on a target the narrowing does not reach and on one it does, fresh targets per statement; distinct = (narrowing, P2 family, form, reference verdict)");
     run.assume("the reference authorizes each clause separately with the permission table documented in governance/gate.rs; where the reference allows, the engine's answer is not judged (other refusals are legitimate)");
     run.finish();
 }
